@@ -109,5 +109,5 @@ Proof. vm_compute. reflexivity. Qed.
 
 Lemma fallthroughs :
   map helper_fallthrough all_helpers =
-  [FTNilThenDeepEqual; FTPanic; FTPanic; FTPanic; FTPanic; FTPanic; FTPanic; FTPanic; FTPanic; FTPanic].
+  [FTNilSeqDeepEqual; FTPanic; FTPanic; FTPanic; FTPanic; FTPanic; FTPanic; FTPanic; FTPanic; FTPanic].
 Proof. vm_compute. reflexivity. Qed.
